@@ -9,7 +9,8 @@ class C07(CacheProp):
     rule = ("virtual-time histories (testing/synctest): TTLs of 1 ns .. 60 s and negative, replaced by longer/shorter/none, "
             "delete and re-insert, inserts applied late, clock advanced to exp-1ns / exp / exp+1ns and across bucket "
             "boundaries, reads before and after sweeps; Get/GetTTL/IterValues compared with the machine and checked against "
-            "the per-value expiration instant; non-trivial = an eviction, rejection or blocked call occurred")
+            "the per-value expiration instant; non-trivial = an eviction, rejection or blocked call occurred"
+            " Plus, as search only: the stress harness' sweep phase (no value is evicted by the expiry sweep before its expiration) and the spin-synchronised store-level / sweep-level races (DelExpired or the whole sweep against an overwrite with a later expiration or a Del: exactly one side may win).")
 
     def gen(self, rng, n, ctx):
         cases = cachegen.gen_cases(rng, n * 5 // 6, ctx, self.profiles)
